@@ -38,7 +38,7 @@ ANCHORS = {
 REQUIRED_ANCHORS = ['index.LocMap.loc_to_iloc', 'index._IndexGOMixin.append', 'index_level.IndexLevel.leaf_loc_to_iloc',
                     'index_level.IndexLevelGO.append', 'index_hierarchy.IndexHierarchy.from_product']
 
-FLAT = ['int', 'negint', 'str', 'float', 'tuple', 'dateobj', 'dt64', 'mixed', 'range', 'bool', 'IndexDate', 'IndexYearMonth', 'IndexSecond']
+FLAT = ['int', 'negint', 'str', 'float', 'tuple', 'dateobj', 'dt64', 'mixed', 'range', 'bool', 'IndexDate', 'IndexYearMonth', 'IndexSecond', 'auto', 'auto']
 ROUTES = ['list', 'generator', 'array', 'index', 'go', 'from_labels', 'tuple', 'pickle', 'deepcopy']
 DERIVS = ['none', 'iloc', 'drop_iloc', 'drop_loc', 'relabel_pair', 'relabel_dict', 'roll', 'sort', 'sort_desc', 'union',
           'intersection', 'difference', 'level_add', 'astype_object', 'rename', 'copy', 'to_go_and_back', 'series_index',
@@ -59,11 +59,18 @@ def generate(ctx):
             kind = rng.choice(FLAT)
             n = rng.choice([0, 1, 2, 3, 4, 5, 6, 8, 12])
             labels = L.flat_labels(kind, n, rng)
+            if kind == 'auto':
+                # a true auto-integer index (no label map): stepped / reversed / list selections must produce mapped indices
+                deriv = rng.choice(['iloc', 'iloc', 'iloc', 'series_index', 'drop_iloc', 'roll', 'sort_desc', 'head', 'tail', 'none', 'copy', 'to_go_and_back',
+                                    'union', 'difference', 'level_add', 'astype_object', 'values_roundtrip'])
+                yield {'t': 'flat', 'kind': kind, 'labels': labels, 'route': rng.choice(['series', 'frame_columns', 'factory']), 'deriv': deriv,
+                       'arg': _deriv_arg(rng, len(labels), labels, 'range')}
+                continue
             case = {'t': 'flat', 'kind': kind, 'labels': labels, 'route': rng.choice(ROUTES), 'deriv': rng.choice(DERIVS),
                     'arg': _deriv_arg(rng, len(labels), labels, kind)}
             yield case
         elif r < 0.52:
-            kind = rng.choice(FLAT)
+            kind = rng.choice([k for k in FLAT if k != 'auto'])
             n = rng.choice([1, 2, 3, 5, 8])
             labels = L.flat_labels(kind, n, rng)
             if not labels:
@@ -140,8 +147,9 @@ def _history_case(rng):
                 seen = start + rest[:i]
                 steps.append(('append_dup', rng.choice(seen)))
             else:
-                steps.append(('read', rng.choice(['values', 'len', 'iter', 'loc', 'contains', 'copy', 'depth_values'])))
-        return {'t': 'history', 'kind': kind, 'start': start, 'steps': steps}
+                steps.append(('read', rng.choice(['values', 'len', 'iter', 'loc', 'contains', 'copy', 'depth_values', 'static_init', 'go_init', 'rename',
+                                                   'values', 'static_init'])))
+        return {'t': 'history', 'kind': kind, 'start': start, 'steps': steps, 'start_route': rng.choice(['from_labels', 'from_labels', 'from_tree'])}
     if kind == 'auto':
         n0 = rng.randint(0, 4)
         start = list(range(n0))
@@ -182,23 +190,26 @@ def _history_case(rng):
     n0 = rng.randint(0, min(4, len(pool)))
     start, rest = pool[:n0], pool[n0:]
     i = 0
+    held = list(start)  # labels certainly held whatever the library does with a rejected partial extend
     for _ in range(rng.randint(1, 12)):
         r = rng.random()
         if r < 0.45 and i < len(rest):
             steps.append(('append', rest[i]))
+            held.append(rest[i])
             i += 1
         elif r < 0.6 and i < len(rest):
             k = rng.randint(1, min(3, len(rest) - i))
             steps.append(('extend', rest[i:i + k]))
+            held.extend(rest[i:i + k])
             i += k
-        elif r < 0.7 and (start or i):
-            steps.append(('append_dup', rng.choice(start + rest[:i])))
-        elif r < 0.78 and i + 1 < len(rest) and (start or i):
-            # partially duplicate extend: valid label(s) then a duplicate
-            steps.append(('extend_partial_dup', [rest[i], rng.choice(start + rest[:i])]))
+        elif r < 0.7 and held:
+            steps.append(('append_dup', rng.choice(held)))
+        elif r < 0.78 and i + 1 < len(rest) and held:
+            # partially duplicate extend: a fresh label then a held one; the fresh label is never used again
+            steps.append(('extend_partial_dup', [rest[i], rng.choice(held)]))
             i += 1
         else:
-            steps.append(('read', rng.choice(['values', 'len', 'iter', 'loc', 'contains', 'copy', 'positions'])))
+            steps.append(('read', rng.choice(['values', 'len', 'iter', 'loc', 'contains', 'copy', 'positions', 'static_init', 'go_init', 'rename'])))
     return {'t': 'history', 'kind': kind, 'start': start, 'steps': steps}
 
 
@@ -344,6 +355,8 @@ def _needs_obj(kind):
 
 def _flat_cls(kind, go=False):
     import static_frame as sf
+    if kind == 'auto':
+        return sf.IndexGO if go else sf.Index
     if kind in ('IndexDate', 'IndexYearMonth', 'IndexSecond'):
         return getattr(sf, kind + ('GO' if go else ''))
     return sf.IndexGO if go else sf.Index
@@ -351,6 +364,13 @@ def _flat_cls(kind, go=False):
 
 def build_flat(kind, labels, route):
     import static_frame as sf
+    if kind == 'auto':
+        n = len(labels)
+        if route == 'frame_columns':
+            return sf.Frame(np.arange(2 * n).reshape(2, n)).columns if n else sf.Frame(index=(0, 1)).columns
+        if route == 'factory':
+            return sf.IndexAutoFactory.from_optional_constructor(n, default_constructor=sf.Index)
+        return sf.Series(np.arange(n)).index
     cls = _flat_cls(kind)
     src = _obj(labels) if _needs_obj(kind) else list(labels)
     if route == 'list':
@@ -782,7 +802,10 @@ def _check_history(case, ctx):
     hier = kind.startswith('hier')
     if hier:
         depth = int(kind[4])
-        idx = sf.IndexHierarchyGO.from_labels(start, depth_reference=depth)
+        if case.get('start_route') == 'from_tree' and start:
+            idx = sf.IndexHierarchyGO.from_tree(_tree_dict(start))
+        else:
+            idx = sf.IndexHierarchyGO.from_labels(start, depth_reference=depth)
     elif kind == 'auto':
         f = sf.FrameGO(np.arange(2 * len(start)).reshape(2, len(start))) if start else sf.FrameGO(index=(0, 1))
         idx = f.columns  # the auto-integer grow-only index of a FrameGO
@@ -869,11 +892,26 @@ def _check_history(case, ctx):
                 model[0] in idx
             elif what == 'copy':
                 derived.append((idx.copy(), list(model)))
+                if not bijection(ctx, derived[-1][0], list(model), dict(sk, derived='copy'), f'step{si}:derived:copy'):
+                    return
+            elif what in ('static_init', 'go_init', 'rename') and (model or not hier):
+                if what == 'rename':
+                    d = idx.rename('renamed')
+                elif hier:
+                    d = (sf.IndexHierarchy if what == 'static_init' else sf.IndexHierarchyGO)(idx)
+                else:
+                    d = _flat_cls(kind if kind != 'auto' else 'int', go=what == 'go_init')(idx)
+                derived.append((d, list(model)))
+                if not bijection(ctx, d, list(model), dict(sk, derived=what), f'step{si}:derived:{what}'):
+                    return
             elif what == 'positions':
                 idx.positions
             elif what == 'depth_values' and hier and model:
                 idx.values_at_depth(0)
-        if op != 'read' or si == len(steps) - 1 or ctx.rng.random() < 0.0:
+        # the full predicate materialises the caches of the grow-only index; it is therefore evaluated after a growth step only
+        # for some histories, so that derivations and reads also meet an index whose caches are stale
+        eager = (len(steps) + len(start)) % 3 == 0
+        if (op != 'read' and eager) or si == len(steps) - 1:
             if not bijection(ctx, idx, model, sk, f'step{si}:{op}'):
                 return
     bijection(ctx, idx, model, klass, 'final')
